@@ -185,6 +185,7 @@ func (s *Server) newPartition(protoPartition *proto.Partition, recovered bool, c
 		AutoPauseDisableIfSubscribers: s.config.Streams.AutoPauseDisableIfSubscribers,
 		MinISR:                        s.config.Clustering.MinISR,
 		Encryption:                    s.config.Streams.Encryption,
+		ConcurrencyControl:            s.config.Streams.ConcurrencyControl,
 	}
 	streamsConfig.ApplyOverrides(config)
 	var (
